@@ -8,6 +8,8 @@ import MqttVerif.Model.Utf8
 import MqttVerif.Model.Parse
 import MqttVerif.Model.PacketId
 import MqttVerif.Model.Api
+import MqttVerif.Model.Filter
+import MqttVerif.Model.Subs
 
 open Mqtt
 
@@ -119,6 +121,35 @@ def showAlloc : Option Nat → String
   | none => "-"
   | some n => toString n
 
+def parseSubItem (s : String) : Option Subscription :=
+  match s.splitOn "." with
+  | [t, q] => do pure { topic := ← parseDesc t, qos := ← q.toNat? }
+  | _ => none
+
+def parseSubOp (s : String) : Option SubCall :=
+  match s.splitOn ":" with
+  | ["S", items] => do
+    let subs ← (items.splitOn ",").mapM parseSubItem
+    pure (.sub subs)
+  | ["U", items] => do
+    let ts ← (items.splitOn ",").mapM parseDesc
+    pure (.unsub ts)
+  | _ => none
+
+def showSubList (d : SubList) : String :=
+  if d.isEmpty then "-" else String.intercalate "," (d.map (fun e => s!"{toHex e.topic}.{e.qos}"))
+
+/-- duplicate check for ids < 65536 with a mark array -/
+def nodupSmall (ids : List Nat) : Bool :=
+  let (_, ok) := ids.foldl (fun (acc : Array Bool × Bool) i =>
+    let (marks, ok) := acc
+    if i < marks.size then (if marks[i]! then (marks, false) else (marks.set! i true, ok)) else (marks, false))
+    (Array.replicate 65536 false, true)
+  ok
+
+def showNatList (l : List Nat) : String :=
+  if l.isEmpty then "-" else String.intercalate "," (l.map toString)
+
 def handle (toks : List String) : Option String :=
   match toks with
   | ["rl", n] => do
@@ -161,6 +192,28 @@ def handle (toks : List String) : Option String :=
     match packConnect (connectPkt o) with
     | .ok b => pure s!"E:ctx written={toHex b}"
     | .err e => pure s!"E:{e}" | .panic => pure "panic"
+  | ["filter", hex] => do
+    match newTopicFilter (← parseDesc hex) with
+    | .ok tf => pure ("ok " ++ String.intercalate "," (tf.map toHex))
+    | .err e => pure s!"E:{e}" | .panic => pure "panic"
+  | ["match", f, t] => do
+    match newTopicFilter (← parseDesc f) with
+    | .ok tf => pure (showBool (matchTopic tf (← parseDesc t)))
+    | _ => pure "invalid"
+  | "mux" :: topic :: filters => do
+    let fs ← filters.mapM parseDesc
+    let hs := muxRegister fs
+    pure s!"reg={showNatList (hs.map (·.1))} called={showNatList (muxServe hs (← parseDesc topic))}"
+  | ["ids", start, n] => do
+    let c ← start.toNat?
+    let n ← n.toNat?
+    let ids := idsFrom c n
+    let ctr := counterAfter c n
+    if n ≤ 64 then pure s!"ctr={ctr} ids={showNatList ids}"
+    else pure s!"ctr={ctr} n={n} sum={ids.foldl (fun h b => (h * 131 + b + 1) % 4294967291) 7} nodup={showBool (nodupSmall ids)}"
+  | "subs" :: ops => do
+    let calls ← ops.mapM parseSubOp
+    pure (showSubList (calls.foldl applyCall []))
   | ["rp", hex] => do
     let bs ← parseDesc hex
     let r := readPacket bs
